@@ -816,6 +816,12 @@ func (c *wsConn) handleWsConn(ctx context.Context) {
 			action = "read-error"
 
 			log.Debugw("websocket error", "error", rerr, "lastAction", action, "time", time.Since(start))
+			// no reader is running any more: flag the connection as unusable so that
+			// requests arriving before the reconnect completes fail fast instead of
+			// being registered after closeInFlight and never completed
+			c.errLk.Lock()
+			c.incomingErr = rerr
+			c.errLk.Unlock()
 			if !c.tryReconnect(ctx) {
 				return // failed to reconnect
 			}
